@@ -25,6 +25,15 @@ DATA_KINDS = ("past_time", "far_past")
 
 
 def make_case(seed: int, tier: str, prop: str, opts=None) -> Dict[str, Any]:
+    if h64(seed, "family") % 8 == 0:
+        # malformed replies in real-time mode, with simulators that set events for themselves
+        c = gen.gen_rt(seed, tier)
+        sc, sp = c["scenario"], c["schedule"]
+        if sc["config"].get("rt_factor") is None:
+            sc["config"]["rt_factor"] = sc["rt"]["f"]
+        sc["config"]["rt_strict"] = False
+        return {"scenario": sc, "schedule": sp, "sample_seed": seed,
+                "max_points": (14 if tier == "quick" else None)}
     sc = gen.gen_core(seed, tier, transport_mix="mixed")
     sc["config"]["debug"] = False
     sp = gen.gen_schedule(seed, sc, h64(seed, "which") % 4)
@@ -117,6 +126,8 @@ def run_case(case, prop) -> Dict[str, Any]:
         return out
     base = runner.execute(sc, sp)
     out["runs"] += 1
+    if sc["config"].get("rt_factor") is not None:
+        st["rt_cases"] = 1
     if base.outcome[0] != "ok":
         st["baseline_not_ok"] = 1
         out["digest"] = digest(base.hist)
